@@ -713,8 +713,22 @@ class ResourceAnalysis:
         the fast path of lock() (never past a non-empty queue, never next to a writer)"""
         core = {self.fn[k].name for k in ('lock', 'unlock', 'select', 'enqueue') if k in self.fn}
         this = ('this',)
+        # a non-public helper that is only ever called from the operations above (or from helpers of that kind) is a piece of them: it has
+        # been evaluated inlined, with the state of its call site
+        members = [g for g in self.facts.fns if g.d.get('class') == CLS and not g.d.get('lambda')]
+        callers = {}
+        for m_ in members:
+            for n in m_.nodes():
+                if n.k == 'call' and n.callee_in_root:
+                    for t in self.facts.resolve(n): callers.setdefault(t.name, set()).add(m_.name)
+        pieces = set(core)
+        for _ in range(4):
+            for m_ in members:
+                if m_.name in pieces or m_.d.get('access') == 'public': continue
+                cs = callers.get(m_.name, set())
+                if cs and cs <= pieces: pieces.add(m_.name)
         for g in self.facts.fns:
-            if g.d.get('class') != CLS or g.d.get('lambda') or g.d.get('ctor') or g.d.get('dtor') or g.name in core: continue
+            if g.d.get('class') != CLS or g.d.get('lambda') or g.d.get('ctor') or g.d.get('dtor') or g.name in pieces: continue
             touches = any(n.k == 'member' and n.name in ('m_activeCount',) and n.n('base') is not None and n.n('base').k == 'this' for n in g.nodes())
             if not touches: continue
             seen = set()
